@@ -226,7 +226,7 @@ def td_applicable(case, obs):
     task whose action left the runner as SystemExit / KeyboardInterrupt (oracle `abort`): the statement then does NOT
     wait for the implementation to say 'complete' (a run_all that forgets finish() on that path says nothing at all)"""
     if abort_fired(obs):
-        return case['runner'] in ('serial', 'thread')
+        return True
     if not any(e[0] == 'complete' for e in obs['trace']) and obs['err'] is None:
         return False
     if obs['err'] is None:
@@ -425,7 +425,26 @@ def ask(triples):
     return list(zip(base, mine))
 
 
-SIGNATURES = {}
+def sig_process_abort_no_teardown(witness):
+    """F-C11c: process runner, the run was stopped by an action raising SystemExit / KeyboardInterrupt (the `abort` task
+    started), and the only thing wrong is that teardowns of started tasks are MISSING (observed is a sub-sequence of the
+    required per-worker log; nothing extra, nothing out of order, nothing twice)"""
+    case = witness.get('case') or {}
+    if case.get('runner') != 'process' or witness.get('failed_monitors') != ['C11_td_exact']:
+        return False
+    ab = [i for i, t in enumerate(case.get('tasks') or []) if t.get('abort')]
+    mixed = witness.get('mixed') or []
+    if len(ab) != 1 or not any(e[0] == 'start' and e[1] == ab[0] for e in mixed):
+        return False
+    for w in range(case['nproc']):
+        got = [e for e in mixed if e[0] in ('td', 'tderr') and e[2] == w]
+        it = iter(teardown_run(case, w, start_order(case, mixed, w)))
+        if not all(any(x == g for x in it) for g in got):
+            return False
+    return not any(e[0] in ('td', 'tderr') and not (0 <= e[2] < case['nproc']) for e in mixed)
+
+
+SIGNATURES = {'process-abort-no-teardown': sig_process_abort_no_teardown}
 
 
 # ======================================================================================================
@@ -446,7 +465,7 @@ def decorate(case, rng, p_td_fail=0.25, p_abort=0.0):
         if t['teardown'] and rng.random() < p_td_fail:
             t['td_fail'] = rng.choice([True, True, 'raise'])
     # drawn after everything else: the cases without `abort` are the ones generated before this oracle existed
-    if p_abort and case['runner'] in ('serial', 'thread') and rng.random() < p_abort:
+    if p_abort and rng.random() < p_abort:
         cand = [t for t in case['tasks'] if t['kind'] != 'group' and not t['ignored'] and t['status'] == 'run'] or \
             [t for t in case['tasks'] if t['kind'] != 'group']
         rng.choice(cand)['abort'] = rng.choice(['SystemExit', 'SystemExit', 'KeyboardInterrupt'])
@@ -1188,7 +1207,7 @@ def plan(ctx, scale=1.0):
     rng.shuffle(gen)
     size = 20 if quick else 60
     pool = [{'gen': gen[i:i + size], 'shrink_s': 12.0} for i in range(0, len(gen), size)]
-    procs = [(rng.randrange(1 << 60), dict(KNOBS, runner='process', n_max=6, p_td_fail=0.25)) for _ in range(n_proc)]
+    procs = [(rng.randrange(1 << 60), dict(KNOBS, runner='process', n_max=6, p_td_fail=0.25, p_abort=0.2)) for _ in range(n_proc)]
     # tasks created at run time travel to the worker processes as whole pickled Task objects (JobTask)
     n_dproc = int((12 if quick else 100) * min(ctx.boost, 2) * scale)
     procs += [(rng.randrange(1 << 60), {'delayed': True, 'runner': 'process'}) for _ in range(n_dproc)]
